@@ -2,7 +2,7 @@
    Part 1/3 are about the model the correspondence harness runs (C02.Model: flatten, unflatten, auto_convert);
    part 2 is about the option records REGENERATED from cli.FLAG_TABLE on every run (gen/Gen_Flags.v). *)
 From Coq Require Import Permutation.
-From Miller Require Import Base.Bytes Base.Record C02.Model C02.Spec C02.Proofs C02.ProofsE.
+From Miller Require Import Base.Bytes Base.Record C02.Model C02.Spec C02.Proofs C02.ProofsE C02.ProofsF.
 From Miller Require Import gen.Gen_Flags C02.FlagSpec C02.FlagProofs C02.FlagExtra.
 Open Scope char_scope.
 
@@ -50,6 +50,23 @@ Theorem C02_flat_records_untouched :
      unflatten sep r = r).
 Proof. exact (fun sep r => conj (flatten_noop sep r) (unflatten_noop sep r)). Qed.
 Print Assumptions C02_flat_records_untouched.
+
+(* `mlr flatten -f FS` then `mlr unflatten -f FS` (FlattenFields / CopyUnflattenFields, which has no empty-piece check
+   and can abort with "Internal coding error"): under the same hypotheses the record comes back, the run does not
+   abort (Some), and the fields not named in FS -- collections included -- are carried through untouched *)
+Theorem C02_unflatten_flatten_fields_partial :
+  forall (fs : list bytes) (c : ascii) (r : jmap),
+    is_digit c = false ->
+    wf_rec r = true -> keys_ok_rec c r = true -> no_sentinel_rec r = true -> no_intkeyed_rec r = true ->
+    unflatten_fields fs [c] (flatten_fields fs [c] r) = Some r.
+Proof. exact unflatten_flatten_fields_char. Qed.
+Print Assumptions C02_unflatten_flatten_fields_partial.
+
+(* outside those hypotheses `unflatten -f` can abort: mlr --json unflatten -f a on {"a..b":1,"c":2} *)
+Theorem C02_unflatten_fields_abort_refuted :
+  unflatten_fields [B "a"] (B ".") [(B "a..b", JNum (B "1")); (B "c", JNum (B "2"))] = None.
+Proof. exact unflatten_fields_crash_witness. Qed.
+Print Assumptions C02_unflatten_fields_abort_refuted.
 
 (* Go ranges over affectedBaseIndices (a map) in an unspecified order; the model uses first-seen order.  Whatever
    order the runtime picks, the result of CopyUnflattened is the model's: for EVERY input record *)
